@@ -334,19 +334,9 @@ def r3_codec_table(ck, F):
     # from_u8 is the inverse of `as u8` on all 256 inputs
     fu = F.body(A("from_u8"))
     discr = {int(v["discr"]): v["name"] for v in enum["variants"]}
-    sw = [bb for bb in fu.normal_blocks() if fu.term(bb)["t"] == "switch"]
-    ck.exact(R, "switches in from_u8", len(sw), 1, F.config)
-    t = fu.term(sw[0])
-    d = fu.expr_of_operand(t["discr"], Site(sw[0], None))
-    ck.ob(R, "from_u8-switches-on-arg", d.strip().k == "arg", f"from_u8 switches on {d.show()}", fu)
-    arms = {int(v): tb for v, tb in t["arms"]}
-    bad = []
-    for x in range(256):
-        tb = arms.get(x, t["otherwise"])
-        res = _from_u8_result(fu, tb)
-        want = discr.get(x)
-        if res != want:
-            bad.append((x, res, want))
+    from . import fmt
+    tbl = fmt.from_u8_table(F)
+    bad = [(x, tbl[x], discr.get(x)) for x in range(256) if tbl[x] != discr.get(x)]
     ck.ob(R, "from_u8-inverse-of-as-u8", not bad, "from_u8(d) = Some(variant with discriminant d) for the 6 ids and None for the other 250 byte values" + (f"; mismatches {bad[:6]}" if bad else ""), fu, ids=256)
     ck.exhaustive = True
     # family agreement of each helper pair (only meaningful where the feature is compiled in)
